@@ -412,5 +412,9 @@ def run(ctx):
         if len(ctx.samples) < 4 and changed_by_later_declaration:
             ctx.sample({"units_defined": ndefs, "declarations": ndecls, "interleaving": "".join({"declare": "D", "scale": "S", "convert": "q", "eq": "q", "lt": "q", "cache_info": ""}.get(op[0], "") for op in spec1["ops"][ndefs:final_start]),
                         "final_queries": len(finals), "answers_changed_by_later_declarations": changed_by_later_declaration})
+    # questions, corrections and levels asked by two threads at once (deterministic scheduler, in this process)
+    from .. import concurrent_conv, kit
+    env = kit.Env(ctx, need_oracle=False, modules=["si", "us"])
+    concurrent_conv.section(ctx, env, trials=(180 if ctx.tier == "quick" else 6000))
     ctx.require("final_queries_compared", 50)
     ctx.require("final_queries_asked_before_a_declaration_that_changes_them", 5)
